@@ -123,7 +123,12 @@ type e2eCase struct {
 	nDst    int
 }
 
-var e2eKeys = []string{"x-trace-id", "X-API-KEY", "x-api-key", "X-Api-Key", "content-md5", "X_Odd.Key", "ETag", "x-UPPER-lower", "X-Request-Id", "x-request-id", "Authorization", "accept"}
+var e2eKeys = []string{"x-trace-id", "X-API-KEY", "x-api-key", "X-Api-Key", "content-md5", "X_Odd.Key", "ETag", "x-UPPER-lower", "X-Request-Id", "x-request-id", "Authorization", "accept",
+	// names net/http knows but writes like any other header, and names with digits / underscores / dots
+	// (Host, User-Agent, Content-Length, Transfer-Encoding, Trailer, Connection, Accept-Encoding, Expect, TE, Upgrade and
+	// X-Vegeta-* are written or interpreted by the client itself: those are judged at the flag value only)
+	"content-type", "CONTENT-TYPE", "Content-type", "authorization", "AUTHORIZATION", "cookie", "Cookie", "COOKIE", "date", "DATE",
+	"x-b3-traceid", "X-B3-TraceId", "x_under_score", "X_UNDER_SCORE", "x.dotted.name", "X.Dotted.Name", "x-1", "X-amz-meta-1a", "x-AMZ-meta-1A"}
 var e2eVals = []string{"1", "abc", "Bearer a:b", "v=1;w=2", "text/plain", "a b  c", "ünï"}
 
 func genE2E(r *kit.Rng) *e2eCase {
